@@ -5,6 +5,7 @@ import (
 	"fmt"
 	"strings"
 
+	"github.com/libsv/go-bk/base58"
 	"github.com/libsv/go-bk/crypto"
 )
 
@@ -68,6 +69,12 @@ func validA58(a58 []byte) (bool, error) {
 	}
 	if a[0] != 0 && a[0] != 0x6f {
 		return false, ErrEncodingInvalidVersion
+	}
+
+	// set58 accumulates into 25 bytes whatever the number of leading '1' characters
+	// (zero bytes) is: the decoded length must be exactly 25 as well.
+	if len(base58.Decode(string(a58))) != 25 {
+		return false, ErrInvalidAddressLength
 	}
 
 	if a.embeddedChecksum() != a.computeChecksum() {
